@@ -23,6 +23,7 @@ type Val struct {
 	P     *Ptr
 	UB    uint64  // inclusive unsigned upper bound of an integer value
 	Ite   *iteRec // set when the value is ite(C, A, B) built by path merging
+	Undef bool    // an undef / poison pointer operand (phi incoming of a path that never uses it)
 }
 
 // Ptr is a pointer value: region id term (BV16), byte offset (BV64).
